@@ -114,7 +114,18 @@ fn main() {
                 .and_then(|s| s.parse().ok())
                 .unwrap_or(1.0);
             match checks::all().into_iter().find(|c| c.property == args[1]) {
-                Some(def) => driver::run_check(&def, tier, seed, scale).exit,
+                Some(def) => {
+                    // the parent runs no endpoint code: a panic here is a defect of the harness
+                    // and must be loud, never a silent non-zero exit
+                    sim::set_quiet_panics(false);
+                    match std::panic::catch_unwind(|| driver::run_check(&def, tier, seed, scale).exit) {
+                        Ok(code) => code,
+                        Err(_) => {
+                            println!("HARNESS-ERROR: the check driver panicked (see stderr); nothing it printed is to be believed");
+                            2
+                        }
+                    }
+                }
                 None => {
                     eprintln!("no check for {}", args[1]);
                     2
